@@ -444,11 +444,18 @@ def evaluate(model, exes, lines):
         return res
     res['samples'] = [{'request': lines[i][:300], 'model_and_spec': mout[i][:300]} for i in (0, len(lines) - 1)]
     for cfg, exe in exes:
-        rc, iout = run_exe(exe, lines)
-        if rc != 0 or len(iout) != len(lines):
-            res['err'].append('harness %s rc=%s lines=%d/%d' % (cfg, rc, len(iout), len(lines)))
+        if len(cfg) > 2 and cfg[2] == 'unchecked':
+            # without assertions only valid, fitting sequences are defined behaviour
+            sel = [k for k in range(len(lines)) if expect_vec[k] is not None and mverdict[k] is None]
+        else:
+            sel = list(range(len(lines)))
+        if not sel:
             continue
-        for idx, i in enumerate(iout):
+        rc, iout = run_exe(exe, [lines[k] for k in sel])
+        if rc != 0 or len(iout) != len(sel):
+            res['err'].append('harness %s rc=%s lines=%d/%d' % (cfg, rc, len(iout), len(sel)))
+            continue
+        for idx, i in zip(sel, iout):
             res['evals'] += 1
             sp = i.split(' ')
             if len(sp) != 2 or not sp[0].startswith('impl=') or not sp[1].startswith('vec='):
@@ -545,7 +552,8 @@ def make_case(model, line, cfg, ops):
     name = last.split('(')[0]
     args = last[last.index('(') + 1:-1].split(',') if '(' in last and last[-2:] != '()' else []
     case = {'op': name, 'op_index': len(ops) - 1, 'n_ops': len(ops), 'len': r.get('len'), 'bo': r.get('bo'),
-            'elem': r.get('elem'), 'cxx': cfg[0], 'std': cfg[1], 'args': ','.join(args)}
+            'elem': r.get('elem'), 'cxx': cfg[0], 'std': cfg[1], 'build': cfg[2] if len(cfg) > 2 else 'checked',
+            'args': ','.join(args)}
     n = length_before_last(model, line)
     if n is not None:
         case['size_before'] = n
@@ -559,21 +567,32 @@ def make_case(model, line, cfg, ops):
 
 # ------------------------------------------------------------------ check
 def configs_for(tier):
+    """(compiler, standard, 'checked' | 'unchecked'); unchecked = SBEPP_DISABLE_ASSERTS, fed only
+    the sequences that are valid for a vector and fit"""
     if tier == 'thorough':
-        return [('g++', 'c++11'), ('g++', 'c++17'), ('g++', 'c++20'),
-                ('clang++-14', 'c++11'), ('clang++-14', 'c++14'), ('clang++-14', 'c++20')]
-    return [('g++', 'c++17'), ('clang++-14', 'c++11')]
+        return [('g++', 'c++11', 'checked'), ('g++', 'c++17', 'checked'), ('g++', 'c++20', 'checked'),
+                ('clang++-14', 'c++11', 'checked'), ('clang++-14', 'c++14', 'checked'),
+                ('clang++-14', 'c++20', 'checked'),
+                ('g++', 'c++14', 'unchecked'), ('clang++-14', 'c++17', 'unchecked')]
+    return [('g++', 'c++17', 'checked'), ('clang++-14', 'c++11', 'checked'), ('g++', 'c++20', 'unchecked')]
+
+
+def build_one(chk, c):
+    flags = ['-DC13_UNCHECKED'] if len(c) > 2 and c[2] == 'unchecked' else []
+    # one cache/lock name per configuration, so that the configurations compile in parallel
+    name = 'c13_dyn_%s_%s_%s' % (c[0].replace('+', 'x'), c[1].replace('+', 'x'), c[2] if len(c) > 2 else 'checked')
+    return chk.build_cxx(name, ['c13_dyn.cpp'], cxx=c[0], std=c[1], flags=flags)
 
 
 def build_all(chk, configs):
     exes = []
     with multiprocessing.pool.ThreadPool(len(configs)) as tp:
-        outs = tp.map(lambda c: chk.build_cxx('c13_dyn', ['c13_dyn.cpp'], cxx=c[0], std=c[1]), configs)
+        outs = tp.map(lambda c: build_one(chk, c), configs)
     for c, (exe, log) in zip(configs, outs):
         if exe is None:
-            chk.report_unproved('harness-build', '%s -std=%s: %s' % (c[0], c[1], log[-1500:]))
+            chk.report_unproved('harness-build', '%s: %s' % (' '.join(c), log[-1500:]))
         else:
-            exes.append((c, exe))
+            exes.append((tuple(c), exe))
     return exes
 
 
@@ -624,14 +643,16 @@ def correspond(chk, configs):
         seen.add(key)
         f = (r['fail'] or [rec])[0]
         chk.report_failure({
-            'kind': 'impl≠spec', 'harness': 'c13_dyn', 'config': {'cxx': cfg[0], 'std': cfg[1]},
+            'kind': 'impl≠spec', 'harness': 'c13_dyn',
+            'config': {'cxx': cfg[0], 'std': cfg[1], 'build': cfg[2] if len(cfg) > 2 else 'checked'},
             'lines': [final], 'original_line': rec['line'],
             'observed': {'impl': f['impl'], 'model_and_spec': f['model'], 'why': f.get('why')}, 'case': case})
     if fail and not chk.violations and not chk.known_hits:
         chk.report_unproved('impl≠spec (not reproduced while shrinking)', fail[0])
     if vec and not fail:
         chk.report_failure({
-            'kind': 'impl≠std::vector', 'harness': 'c13_dyn', 'config': dict(zip(('cxx', 'std'), vec[0]['config'])),
+            'kind': 'impl≠std::vector', 'harness': 'c13_dyn',
+            'config': dict(zip(('cxx', 'std', 'build'), vec[0]['config'])),
             'lines': [vec[0]['line']], 'observed': {'impl_and_vector': vec[0]['impl'], 'model_and_spec': vec[0]['model']},
             'case': {'op': 'vector-mismatch'}})
     if corr and not chk.violations:
@@ -654,8 +675,9 @@ def correspond(chk, configs):
         '/ all 8 (thorough) of the 8 combinations; (D) seeded random sequences of length '
         '20-60; (E) boundary grid next to the maximum of uint8/uint16 lengths. C = 3 quick / 4 thorough. Sequences '
         'end at the first operation that exceeds the capacity (the assertion is compared with the model).')
-    chk.cov['exhaustive'] = True
-    chk.cov['configurations'] = ['%s -std=%s' % c for c in configs]
+    chk.cov['exhaustive'] = False
+    chk.cov['exhaustive_within_the_stated_small_scopes'] = True
+    chk.cov['configurations'] = ['%s -std=%s %s' % tuple(c) for c in configs]
     for s in samples:
         chk.sample(s)
 
@@ -685,7 +707,8 @@ def run(chk):
         'specification (block move), with the overlap precondition as an explicit UB outcome; a self-copy '
         '(destination == source begin, e.g. erase(p, p)) is treated as a no-op although [alg.copy] formally excludes it',
         'the source ranges of insert/assign do not alias the array itself',
-        'unchecked (NDEBUG) builds execute the same statements without the assertions; only the checked build is run',
+        'unchecked builds (SBEPP_DISABLE_ASSERTS) are run only on sequences that are valid and fit; what they do on '
+        'others is outside the property',
         'constant evaluation is not exercised',
     ]
 
@@ -693,14 +716,15 @@ def run(chk):
 def replay(chk, rep):
     model = chk.model_exe()
     cfg = rep.get('config', {'cxx': 'g++', 'std': 'c++17'})
-    exe, log = chk.build_cxx('c13_dyn', ['c13_dyn.cpp'], cxx=cfg['cxx'], std=cfg['std'])
+    c = (cfg['cxx'], cfg['std'], cfg.get('build', 'checked'))
+    exe, log = build_one(chk, c)
     if exe is None or model is None:
         print('build failed', log[-800:])
         return 2
     lines = rep.get('lines', [])
     bad = 0
     for l in lines:
-        r = evaluate(model, [((cfg['cxx'], cfg['std']), exe)], [l])
+        r = evaluate(model, [(c, exe)], [l])
         _, mo = run_exe(model, [l])
         _, io = run_exe(exe, [l])
         print('request:', l)
